@@ -24,8 +24,8 @@ namespace GuppyVerif.Print
 inductive Tok where
   /-- an identifier; `var = some idx` marks an occurrence of the bound variable with that index -/
   | ident (s : String) (var : Option Nat)
-  /-- `?name`, an existential variable with unique id `id` -/
-  | evar (s : String) (id : Nat)
+  /-- `?name`, an existential variable with unique id `id`; ghost `isConst`: an `ExistentialConstVar` -/
+  | evar (s : String) (id : Nat) (isConst : Bool)
   | kwNone | kwTrue | kwFalse
   | nat (n : Nat)
   /-- unsigned float literal as produced by `str(float)` -/
@@ -41,7 +41,7 @@ inductive Tok where
 
 def Tok.text : Tok → String
   | .ident s _ => s
-  | .evar s _ => "?" ++ s
+  | .evar s _ _ => "?" ++ s
   | .kwNone => "None" | .kwTrue => "True" | .kwFalse => "False"
   | .nat n => toString n
   | .float r => r
@@ -155,7 +155,7 @@ def visitTy (st : PState) : Ty → Bool → List Tok × PState
   | .bvar n i _ _, _ => ([boundTok st n i], st)
   | .evar n id _ _, _ =>
       let r := existName st id n
-      ([.evar r.1 id], r.2)
+      ([.evar r.1 id false], r.2)
   | .tuple ts _, _ =>
       let r := visitTys st false ts
       (.lpar :: r.1 ++ (if ts.length = 1 then [.comma] else []) ++ [.rpar], r.2)
@@ -201,7 +201,7 @@ def visitConst (st : PState) : Const → List Tok × PState
   | .bvar _ n i => ([boundTok st n i], st)
   | .evar _ n id =>
       let r := existName st id n
-      ([.evar r.1 id], r.2)
+      ([.evar r.1 id true], r.2)
 def visitIn (st : PState) : FuncIn → List Tok × PState
   | .mk t f =>
       let r := visitTy st t true
@@ -245,8 +245,43 @@ inductive VarId where
 def varOccs : List Tok → List (VarId × String)
   | [] => []
   | .ident s (some i) :: r => (.bound i, s) :: varOccs r
-  | .evar s id :: r => (.exist id, "?" ++ s) :: varOccs r
+  | .evar s id _ :: r => (.exist id, "?" ++ s) :: varOccs r
   | _ :: r => varOccs r
+
+/-! ## Existential variables have a kind; their ids come from a session allocator
+
+`ExistentialTypeVar` and `ExistentialConstVar` both inherit `ExistentialVar._fresh_id`, ONE counter:
+`ExistentialTypeVar.fresh`, `ExistentialConstVar.fresh`, `Parameter.to_existential`,
+`FunctionType.unquantified` all draw from it.  `TypePrinter.existential_names` is keyed by the id
+alone, so the printer relies on ids being unique ACROSS kinds. -/
+inductive EKind where
+  | ty | const
+  deriving DecidableEq, Repr
+
+/-- `ExistentialVar._fresh_id` (shared `itertools.count()`) -/
+structure Alloc where
+  next : Nat
+
+/-- a sequence of `.fresh` calls of either kind: the variables (kind, id) handed out -/
+def Alloc.run (a : Alloc) : List EKind → List (EKind × Nat)
+  | [] => []
+  | k :: ks => (k, a.next) :: Alloc.run ⟨a.next + 1⟩ ks
+
+/-- the variant with one counter per kind (NOT the code; used for the negative witness) -/
+structure Alloc2 where
+  nextTy : Nat
+  nextConst : Nat
+
+def Alloc2.run (a : Alloc2) : List EKind → List (EKind × Nat)
+  | [] => []
+  | .ty :: ks => (.ty, a.nextTy) :: Alloc2.run ⟨a.nextTy + 1, a.nextConst⟩ ks
+  | .const :: ks => (.const, a.nextConst) :: Alloc2.run ⟨a.nextTy, a.nextConst + 1⟩ ks
+
+/-- (kind, id, printed name) of every existential occurrence, in print order -/
+def evarOccs : List Tok → List (EKind × Nat × String)
+  | [] => []
+  | .evar s id c :: r => ((if c then .const else .ty), id, "?" ++ s) :: evarOccs r
+  | _ :: r => evarOccs r
 
 /-! ## Stage 1: CPython's expression parser on the printed fragment -/
 inductive Ast where
